@@ -410,6 +410,7 @@ def _run_seq(cfg) -> Dict[str, Any]:
     """All sequences prefix + [last] for last in the chosen alphabet; every step judged."""
     prefix = [OPS_FULL[i] for i in cfg["prefix"]]
     lasts = OPS_SMALL if cfg["last"] == "small" else OPS_FULL
+    lasts = lasts[cfg.get("lo", 0):cfg.get("hi", len(lasts))]
     viol: List[dict] = []
     cnt: Dict[str, int] = {"sequences": 0, "steps": 0}
     outcomes = set()
@@ -1556,6 +1557,10 @@ def run(tier: str, only=None) -> core.Result:
     # four blocks per year (months 00-24, 25-49, 50-74, 75-99): the determinism audit then re-runs a third of the grid instead of all of it
     cfgs = [{"part": "grid", "year": y, "m0": m0, "m1": m0 + 25, "entry": y in entry_years}
             for y in range(YEARS[0], YEARS[1] + 1) for m0 in (0, 25, 50, 75)] + [{"part": "specials"}]
+    if tier == "quick":
+        # smaller blocks in quick (10 months each): the audit's fixed number of re-runs then covers a sixth of the grid
+        cfgs = [{"part": "grid", "year": y, "m0": m0, "m1": m0 + 10, "entry": y in entry_years}
+                for y in range(YEARS[0], YEARS[1] + 1) for m0 in range(0, 100, 10)] + [{"part": "specials"}]
     out = explorer.explore(RUN, cfgs)
     sched.absorb(res, "a-decision-function-date-grid", RUN, out, cfgs)
     samples = _pick("a-decision-function-date-grid", cfgs)
@@ -1578,7 +1583,7 @@ def run(tier: str, only=None) -> core.Result:
     sched.debug_pass(res, f"b-sequences-depth{depth}-batches-le2", RUN, cfgs, every=(25 if tier == "quick" else 500))
     samples += _pick(f"b-sequences-depth{depth}-batches-le2", cfgs)
     if tier == "quick":
-        cfgs = [{"part": "seq", "prefix": [a], "last": "full"} for a in full_idx]
+        cfgs = [{"part": "seq", "prefix": [a], "last": "full", "lo": lo, "hi": lo + 32} for a in full_idx for lo in range(0, len(OPS_FULL), 32)]
         name = "b-sequences-depth2-batches-le4"
     else:
         cfgs = [{"part": "seq", "prefix": [a, b], "last": "full"} for a in small_idx for b in full_idx]
@@ -1586,7 +1591,7 @@ def run(tier: str, only=None) -> core.Result:
     out = explorer.explore(RUN, cfgs)
     sched.absorb(res, name, RUN, out, cfgs)
     samples += _pick(name, cfgs)
-    sched.debug_pass(res, name, RUN, cfgs, every=(32 if tier == "quick" else 160))
+    sched.debug_pass(res, name, RUN, cfgs, every=(128 if tier == "quick" else 160))
     sched.debug_pass(res, "a-decision-function-date-grid", RUN, [{"part": "grid", "year": 2025, "m0": 0, "m1": 25, "entry": True}, {"part": "specials"}])
 
     # (c) handshake and invalid forms
@@ -1741,7 +1746,7 @@ def run(tier: str, only=None) -> core.Result:
     cov["depth"] = depth
     cov["exhaustive"] = True
     cov["rule"] = (
-        f"(a) every string dddd-dd-dd with year {YEARS[0]}..{YEARS[1]} (incl. non-calendar month/day 00..99), four blocks per year; the other decision entry points "
+        f"(a) every string dddd-dd-dd with year {YEARS[0]}..{YEARS[1]} (incl. non-calendar month/day 00..99), four (quick: ten) blocks per year; the other decision entry points "
         "(both deprecated _supports_batch_processing wrappers, BatchProcessor.can_process_batch / process_message_data after construction and after "
         "update_protocol_version) must agree with the function on "
         + ("every string" if tier == "thorough" else "every string of the years 2024-2026 and of every 10th year (all years in thorough)") + ". "
